@@ -39,6 +39,7 @@ let r_res = function
   | RGw g -> r_gw g | RGws l -> "gws[" ^ sorted r_gw l ^ "]"
   | RUps l -> "ups[" ^ String.concat ";" (List.map r_up l) ^ "]"
   | RDowns l -> "downs[" ^ String.concat ";" (List.map r_down l) ^ "]"
+  | RCnt c -> "cnt:" ^ r_n c
 
 let dev_of s = match String.split_on_char ',' s with
   | e :: a :: k1 :: k2 :: k3 :: ap :: st :: fu :: fd :: rl :: kw :: tag :: _history ->
@@ -84,6 +85,8 @@ let rop_of (s : string) : regop =
   | ["dm"; e; c] -> DeleteDownstreamMessage (eui_of e, i64_of c)
   | ["lm"; e] -> ListDownstreamMessages (eui_of e)
   | ["x"] -> Reopen
+  | ["af"; e; a; nf; kw] -> AdvanceFCntUp (eui_of e, n_of a, n_of nf, b_of kw)
+  | ["nd"; e] -> NextFCntDn (eui_of e)
   | _ -> failwith ("op: " ^ s)
 
 (* ---- service requests ---- *)
